@@ -821,6 +821,8 @@ func queryTemplate(name, arg string) (string, Term, map[string]any) {
 	case "QBodyAEq":
 		n, _ := strconv.ParseUint(arg, 10, 64)
 		return "SELECT json_quote(id) AS id FROM $_keyspace WHERE CASE WHEN json_valid(body) THEN body->>'$.a' END = $n ORDER BY id", C("QBodyAEq", N(n)), map[string]any{"n": n}
+	case "QUser":
+		return "SELECT json_quote(id) AS id, xattrs->'$.u1' AS u FROM $_keyspace ORDER BY id", C("QUser"), nil
 	case "QCross":
 		return "SELECT json_quote(a.id || b.id || c.id || d.id) AS id FROM $_keyspace a, $_keyspace b, $_keyspace c, $_keyspace d ORDER BY a.id, b.id, c.id, d.id", C("QCross"), nil
 	case "QSyncFirst":
